@@ -8,7 +8,7 @@
    Trusted (the step function's guards): Mutex gives mutual exclusion, Condvar::wait releases the lock atomically,
    notify_one wakes one blocked thread if there is one, notify_all wakes all, BinaryHeap::pop returns a maximum. *)
 From Coq Require Import Permutation.
-From Ragc Require Import Mach Queue Queue_proofs.
+From Ragc Require Import Mach Queue Queue_proofs Consts_queue.
 Open Scope N_scope.
 
 (* accepted = returned (+) queued as multisets, admission numbers unique: returned exactly once, nothing else *)
@@ -172,3 +172,15 @@ Proof. eexists. split; [vm_compute; reflexivity|]. vm_compute. repeat split; dis
 Example ex_replay : exists s, replay 10 (init, None) [LWE 2; LA 1 5 0 6; LKE 2; LT 2 0 6; LC 4; LN 2] = Some (s, None) /\
   quiescent (s, None) = true.
 Proof. eexists. split; [vm_compute; reflexivity|]. vm_compute. reflexivity. Qed.
+
+(* The tie between Queue.step's shape and the source text, regenerated by the translator on every run
+   (translator/items_queue.py): Queue.step makes every operation - close included - one critical section of the
+   single mutex.  The three generated constants say that items / current_size / closed are fields of the one struct
+   inside the queue's only Mutex (no atomic flag beside it), that close() takes the lock before setting closed and
+   then notifies both condition variables with notify_all, and that push / pull wait in a predicate loop under the
+   guard.  A source that moves `closed` out of the mutex or closes without the lock (lost wake-up: a waiter can
+   test the flag, be overtaken by close, and sleep forever) flips a constant and this statement stops checking. *)
+Theorem source_has_model_shape :
+  q_state_under_one_mutex = 1 /\ q_close_under_lock = 1 /\ q_wait_loops = 1.
+Proof. repeat split; reflexivity. Qed.
+Print Assumptions source_has_model_shape.
